@@ -184,13 +184,15 @@ def b3(led, rid, ctx):
     f = next_solution(lib)
     paths = [p for p in SymExec(f).run() if not p.diverged]
     rows = set()
+    memos = {}
+    facts = {}
     for p in paths:
         sat_variant = None
         add_err = None
         has_sol = None
         for cond, val, others in p.conds:
             if cond.k == "discr" and (cond.b or "").endswith("SatisfactionResult"):
-                sat_variant = variant_name(f, cond, val, others)
+                sat_variant = variant_name(f, cond, val, others) or sat_variant
             c = cond
             truth = bool(val) if val is not None else (not bool(others[0]) if others and len(others) == 1 else None)
             while c.k == "unop" and c.a == "Not":
@@ -209,7 +211,43 @@ def b3(led, rid, ctx):
                 has_sol = truth
         ret = p.ret.b if (p.ret is not None and p.ret.k == "agg") else None
         satisfied = bool(p.called("satisfy"))
+        if not satisfied and add_err is not True and ret in ("Finished", "Unsatisfiable"):
+            # an "enumeration has ended" memo: a bool field of the iterator tested true before anything
+            # else is done.  Admissible iff the answer is the end-of-enumeration answer for has_solution
+            # and the field is only ever set on a path that established the end (blocking clause
+            # rejected, or satisfy said Unsatisfiable)
+            memo = None
+            for cond, val, others in p.conds:
+                c = cond
+                truth = bool(val) if val is not None else (not bool(others[0]) if others and len(others) == 1 else None)
+                while c.k == "unop" and c.a == "Not":
+                    c = c.b
+                    truth = not truth
+                if c.k == "proj" and c.b and c.b[-1].get("name") not in (None, "has_solution") and truth is True \
+                        and peel(c.a, calls=None).k == "arg":
+                    memo = c.b[-1].get("name")
+            if memo is not None and (has_sol, ret) in ((True, "Finished"), (False, "Unsatisfiable")):
+                memos.setdefault(memo, []).append(p)
+                continue
         rows.add((add_err is True and not satisfied, sat_variant, has_sol, ret))
+        facts[id(p)] = (add_err, sat_variant)
+    for memo, _ps in sorted(memos.items()):
+        ok = True
+        nset = 0
+        for p in paths:
+            for dst, val in p.stores:
+                if [e.get("name") for e in dst["proj"] if "field" in e][-1:] != [memo]:
+                    continue
+                if val.k == "const" and val.a == 0:
+                    continue
+                nset += 1
+                ae, sv = facts.get(id(p), (None, None))
+                if not (val.k == "const" and val.a == 1 and (ae is True or sv == "Unsatisfiable")):
+                    ok = False
+        led.check(ok and nset >= 1, rid, "memo:%s-set-only-at-the-end" % memo, f.span, "",
+                  "next_solution answers from the memo `%s` without solving, but the memo is also set on a path "
+                  "that did not establish the end of the enumeration (an interrupted solve is not the end): a "
+                  "later call reports Finished/Unsatisfiable with solutions left" % memo)
     want = {
         (True, None, None, "Finished"),
         (False, "Satisfiable", None, "Solution"),
@@ -230,7 +268,7 @@ def b3(led, rid, ctx):
             if [e.get("name") for e in dst["proj"] if "field" in e][-1:] == ["has_solution"]:
                 pv = [variant_name(f, c, v, o) for c, v, o in p.conds
                       if c.k == "discr" and (c.b or "").endswith("SatisfactionResult")]
-                if val.k == "const" and val.a == 1 and pv == ["Satisfiable"]:
+                if val.k == "const" and val.a == 1 and {x for x in pv if x} == {"Satisfiable"}:
                     setter = True
     led.check(setter, rid, "has_solution-set-on-Satisfiable", f.span, "",
               "has_solution is not set when a solution is returned: the end of the iteration would be "
